@@ -30,12 +30,6 @@ theorem Stack.new_inv (B : Nat) (hB : 1 ≤ B) : (Stack.new B : Stack α).Inv :=
 
 theorem Stack.new_abs (B : Nat) : (Stack.new B : Stack α).abs = [] := rfl
 
-theorem newBlock_toList (zero : α) (n : Nat) (h : 1 ≤ n) :
-    (newBlock zero n).toList = zero :: List.replicate (n - 1) zero := by
-  cases n with
-  | zero => omega
-  | succ n => simp [newBlock, List.replicate_succ]
-
 theorem Stack.push_spec (zero : α) (s : Stack α) (v : α) (h : s.Inv) :
     ∃ s', s.push zero v = .ok s' ∧ s'.Inv ∧ s'.abs = v :: s.abs ∧ s'.nodeSize = s.nodeSize := by
   obtain ⟨hpos, hbl, hnil, hcons, hsz⟩ := h
